@@ -27,16 +27,18 @@ const (
 	selfCheckTol = 1e-6 // dense sampling vs analytic oracle
 	// strictChordSlack: also flag errors > 3 tol whose squared-chord error exceeds the slack only
 	// relatively (slack * d2/4).  Off: the slack is absolute, as specified for this property.
-	strictChordSlack = false
+	strictChordSlack = true
 )
 
 // kindSuffix separates the known accuracy loss of edgeDistance around 90 degrees
 // (sqrt(1-pq2) with pq2 -> 1) from every other disagreement.
-func (g *gen) kindSuffix(angle float64) string {
+// Only errors of the documented magnitude (<= 1e-7 rad) are classed that way, so that a
+// different defect that shows up around 90 degrees is not hidden behind the known finding.
+func (g *gen) kindSuffix(angle, err float64) string {
 	if g.kindOverride != "" {
 		return g.kindOverride
 	}
-	if math.Abs(angle-math.Pi/2) <= 0.01 {
+	if math.Abs(angle-math.Pi/2) <= 0.01 && err <= 1e-7 {
 		return ".near90"
 	}
 	return ""
@@ -177,7 +179,7 @@ func (g *gen) judge(fn string, rep s1.ChordAngle, true2 *big.Float, replay func(
 	}
 	switch {
 	case err > marginFactor*tol && (cd > chordSlack || (strictChordSlack && cd > chordSlack*math.Max(r, b2f(true2))/4)):
-		g.violate("Cell."+fn+g.kindSuffix(aTrue), fmt.Sprintf("%s = %.17g rad but the exact value is %.17g rad: error %.3g rad > %g x tolerance %g (margin factor %g; squared-chord error %.3g > %.3g)",
+		g.violate("Cell."+fn+g.kindSuffix(aTrue, err), fmt.Sprintf("%s = %.17g rad but the exact value is %.17g rad: error %.3g rad > %g x tolerance %g (margin factor %g; squared-chord error %.3g > %.3g)",
 			fn, aRep, aTrue, err, marginFactor, tol, marginFactor, cd, chordSlack), detail())
 	case err > marginFactor*tol:
 		st.chordExempt[fn+" "+regime]++
@@ -206,7 +208,7 @@ func (g *gen) boundLow(fn string, rep s1.ChordAngle, d2 *big.Float, replay func(
 	if aQ < aRep-marginFactor*tol && b2f(bnew().Sub(bf(r), d2)) > chordSlack {
 		m := replay()
 		m["function"], m["reported_chord2"], m["cell_point_chord2"] = fn, r, b2f(d2)
-		g.violate("Cell."+fn+g.kindSuffix(aRep), fmt.Sprintf("%s reports minimum %.17g rad but a point of the cell is at %.17g rad (margin %g x %g)", fn, aRep, aQ, marginFactor, tol), m)
+		g.violate("Cell."+fn+g.kindSuffix(aRep, aRep-aQ), fmt.Sprintf("%s reports minimum %.17g rad but a point of the cell is at %.17g rad (margin %g x %g)", fn, aRep, aQ, marginFactor, tol), m)
 	}
 }
 func (g *gen) boundHigh(fn string, rep s1.ChordAngle, d2 *big.Float, replay func() map[string]interface{}) {
@@ -220,7 +222,7 @@ func (g *gen) boundHigh(fn string, rep s1.ChordAngle, d2 *big.Float, replay func
 	if aQ > aRep+marginFactor*tol && b2f(bnew().Sub(d2, bf(r))) > chordSlack {
 		m := replay()
 		m["function"], m["reported_chord2"], m["cell_point_chord2"] = fn, r, b2f(d2)
-		g.violate("Cell."+fn+g.kindSuffix(aRep), fmt.Sprintf("%s reports maximum %.17g rad but a point of the cell is at %.17g rad (margin %g x %g)", fn, aRep, aQ, marginFactor, tol), m)
+		g.violate("Cell."+fn+g.kindSuffix(aRep, aQ-aRep), fmt.Sprintf("%s reports maximum %.17g rad but a point of the cell is at %.17g rad (margin %g x %g)", fn, aRep, aQ, marginFactor, tol), m)
 	}
 }
 
